@@ -202,7 +202,8 @@ def main(argv=None):
             rep = None
             used = None
             for t in tests[:4]:
-                rep, rout = K.native_replay(h, t, timeout=(60 if getattr(h, 'hang', False) else 600))
+                rep, rout = K.native_replay(h, t, timeout=(60 if getattr(h, 'hang', False) else 600),
+                                            fail_locs={(os.path.basename(f['file']), f['line']) for f in unknown})
                 used = t
                 if rep:
                     break
